@@ -63,6 +63,17 @@ func (c10) Directed() []core.Directed {
 	}
 }
 
+var renderPoisonBlocks []*cm.RootBlock
+
+// renderPoison is a document that drives the renderer's scratch state (lower-casing buffer,
+// alt-text mode, tight lists, open containers) away from its initial condition.
+func renderPoison() []*cm.RootBlock {
+	if renderPoisonBlocks == nil {
+		renderPoisonBlocks, _ = cm.Parse([]byte("<DIV>\n<SCRIPT>\n\n![a *b* <XMP>](/u)\n\n- x\n  > y `z\n\n1. <Title>\n"))
+	}
+	return renderPoisonBlocks
+}
+
 func (c10) Check(ctx *core.Ctx, c *core.Case) {
 	rnd := core.NewRand(c.Seed)
 	blocks, refs, _ := core.ParseCopy(c.Input)
@@ -90,6 +101,10 @@ func (c10) Check(ctx *core.Ctx, c *core.Case) {
 			if !ok {
 				ctx.Violation("segment_mismatch", "%s: block %d (%s): output departs from the independent reading of the tree at byte %d\n library:   %s\n reference: %s\n expected there: %s", cfg, bi, rb.Kind(), at, core.Quote(got), core.Quote([]byte(render.String(segs))), core.Quote([]byte(want)))
 				return
+			}
+			// something else is rendered in between, through the same renderer value
+			for _, pb := range renderPoison() {
+				r.AppendBlock(nil, pb)
 			}
 			if again := r.AppendBlock(nil, rb); !bytes.Equal(again, got) {
 				ctx.Violation("nondeterministic", "%s: block %d rendered twice gives different bytes", cfg, bi)
